@@ -44,6 +44,31 @@ fatal(const char *fmt, ...)
 	exit(1);
 }
 
+#ifdef CPROC_VERIF
+void
+vtrace(const char *fmt, ...)
+{
+	static FILE *f;
+	static bool init;
+	va_list ap;
+	const char *path;
+
+	if (!init) {
+		init = true;
+		path = getenv("CPROC_VERIF_TRACE");
+		if (path && path[0])
+			f = fopen(path, "a");
+	}
+	if (!f)
+		return;
+	va_start(ap, fmt);
+	vfprintf(f, fmt, ap);
+	va_end(ap);
+	fputc('\n', f);
+	fflush(f);
+}
+#endif
+
 void *
 reallocarray(void *buf, size_t n, size_t m)
 {
